@@ -40,7 +40,12 @@ def _protocol(repo):
 def _has_attr(repo, cls, name):
     for c in repo.mro(cls):
         if isinstance(c, ClassInfo):
-            if name in c.methods or name in c.class_attrs:
+            if name in c.class_attrs:
+                return True
+            if name in c.methods:
+                body = [x for x in c.methods[name].node.body if not (isinstance(x, ast.Expr) and isinstance(x.value, ast.Constant))]
+                if len(body) == 1 and isinstance(body[0], ast.Raise) and "NotImplementedError" in norm(body[0]):
+                    continue  # abstract placeholder: calling it raises
                 return True
             init = c.methods.get("__init__")
             if init is not None:
